@@ -688,7 +688,7 @@ def conj_possible(conj, decide):
     return True
 
 
-def expand_bool(c, tv, open_var=None):
+def expand_bool(c, tv, open_var=None, rewrite=None):
     """alternatives under which boolean expression c has truth value tv; each alternative is a list of (atom, truth).
     Looks through `!`, and through the short-circuit temps the compiler builds for `a && b` / `a || b` / `matches!`.
     open_var(var node) -> bool: also look into a named merge value (a `let ok = a && b;` that got a name)."""
@@ -698,23 +698,27 @@ def expand_bool(c, tv, open_var=None):
         from ..expr import expand_var
         d = norm(expand_var(c))
         if d != c:
-            return expand_bool(d, tv, open_var)
+            return expand_bool(d, tv, open_var, rewrite)
     if c[0] == 'int':
         return [[]] if bool(c[1]) == tv else []
     if c[0] == 'un' and c[1] == 'Not':
-        return expand_bool(c[2], not tv, open_var)
+        return expand_bool(c[2], not tv, open_var, rewrite)
     if c[0] == 'ite' and all(v in (0, 1, 'otherwise') for v, _ in c[2]) and \
             all(isinstance(x, tuple) and x and (x[0] in ('int', 'ite', 'un', 'call', 'bin', 'bbeq', 'bbne')) for _, x in c[2]):
         out = []
         for v, sub in c[2]:
-            for alt_s in expand_bool(sub, tv, open_var):
-                for alt_c in expand_bool(c[1], v != 0, open_var):
+            for alt_s in expand_bool(sub, tv, open_var, rewrite):
+                for alt_c in expand_bool(c[1], v != 0, open_var, rewrite):
                     out.append(alt_c + alt_s)
         return out
+    if rewrite is not None:
+        r = rewrite(c)
+        if r is not None and r != c:
+            return expand_bool(r, tv, open_var, rewrite)
     return [[(c, tv)]]
 
 
-def expand_conj(conj, open_var=None):
+def expand_conj(conj, open_var=None, rewrite=None):
     """a disjunct of dnf() with every boolean-temp literal expanded: list of alternative guard lists (pseudo guards
     carry cond / truth / vals / all / blk / line like real ones)"""
     alts = [[]]
@@ -722,7 +726,7 @@ def expand_conj(conj, open_var=None):
         if g['cond'] is None or g['truth'] is None:
             alts = [a + [g] for a in alts]
             continue
-        ex = expand_bool(norm(g['cond']), g['truth'], open_var)
+        ex = expand_bool(norm(g['cond']), g['truth'], open_var, rewrite)
         new = []
         for a in alts:
             for e in ex:
